@@ -84,10 +84,19 @@ def _run_chunk(modname, prop, tier, base_seed, indices, recheck_every):
             try:
                 desc = chk.generate(prop, seed, tier)
                 res = chk.execute(prop, desc)
-                if recheck_every and idx % recheck_every == 0:
+                if recheck_every and idx % recheck_every == 0 and not res.get("violations"):
                     res2 = chk.execute(prop, desc)
                     if res2["digest"] != res["digest"]:
-                        res["nondeterministic"] = (res["digest"], res2["digest"])
+                        if res2.get("violations"):
+                            # the same case behaves differently - and wrongly - when executed again in this
+                            # process: state leaking inside the code under test (a cache, a global), a violation
+                            for v in res2["violations"]:
+                                v.setdefault("tags", {})["on_reexecution_in_process"] = True
+                                v["msg"] = "[second execution of the same case in one process] " + v["msg"]
+                            res2["pin"] = dict(res2.get("pin") or {}, repeat_in_process=2)
+                            res = res2
+                        else:
+                            res["nondeterministic"] = (res["digest"], res2["digest"])
             except Exception as e:
                 res = {
                     "harness_error": "".join(traceback.format_exception(e))[-4000:],
@@ -122,7 +131,10 @@ def _exec_one(modname, prop, desc):
     faulthandler.dump_traceback_later(300, exit=True)
     try:
         chk = _load_check(modname)
-        return chk.execute(prop, desc)
+        res = None
+        for _ in range(int(desc.get("repeat_in_process", 1)) if isinstance(desc, dict) else 1):
+            res = chk.execute(prop, desc)
+        return res
     finally:
         faulthandler.cancel_dump_traceback_later()
 
@@ -189,6 +201,7 @@ def run_batch(modname, prop, tier, *, n_cases, budget_s, jobs, base_seed, chunk=
     violations = []
     known_hits = {}
     harness_errors = []
+    nondet = []   # a re-executed case gave another event log (without any oracle failing): reported at the end
     next_idx = 0
     pending = set()
     stop = False
@@ -218,7 +231,7 @@ def run_batch(modname, prop, tier, *, n_cases, budget_s, jobs, base_seed, chunk=
                     if res.get("harness_error"):
                         harness_errors.append(f"case idx={res['idx']} seed={res['seed']}: {res['harness_error']}")
                     if res.get("nondeterministic"):
-                        harness_errors.append(
+                        nondet.append(
                             f"nondeterminism: idx={res['idx']} seed={res['seed']} digests {res['nondeterministic']}"
                         )
                     for v in res.get("violations", ()):
@@ -233,6 +246,8 @@ def run_batch(modname, prop, tier, *, n_cases, budget_s, jobs, base_seed, chunk=
     finally:
         pool.close()
     wall = time.time() - t_start
+    if nondet and not violations:
+        harness_errors.extend(nondet[:5])
     return dict(agg=agg, violations=violations, known_hits=known_hits, harness_errors=harness_errors,
                 wall=wall, n_requested=n_cases, digests=digests)
 
